@@ -389,6 +389,7 @@ def check_highdeg(ctx, agg, groups):
                 agg.add('high degree: exception %s' % type(ex).__name__, p=pn, kv=kvarr.tolist(), error=repr(ex))
                 continue
             info = dict(p=pn, kv=kvarr.tolist())
+            ratio = 'span ratio >= 2^24' if gaps.max() / gaps.min() >= 2.0 ** 24 else 'span ratio < 2^24'
             if not np.isfinite(A).all():
                 agg.add('high degree: NaN/inf from active_deriv', **info)
                 continue
@@ -399,7 +400,8 @@ def check_highdeg(ctx, agg, groups):
             for k in range(1, pn + 1):
                 tot = np.abs(A[k]).sum(axis=0)
                 if (np.abs(A[k].sum(axis=0)) > 1e-9 * np.maximum(tot, 1e-300)).any():
-                    agg.add('high degree: derivative sum not zero', order=k, **info)
+                    agg.add('high degree: derivative sum not zero (relative 1e-9, %s)' % ratio, order=k,
+                            rel=float((np.abs(A[k].sum(axis=0)) / np.maximum(tot, 1e-300)).max()), **info)
                     break
             if (first < 0).any() or (first + pn > n - 1).any():
                 agg.add('high degree: first active index out of range', **info)
